@@ -55,6 +55,15 @@ CHECKS = [
           "solution of the model's local normal equations; monitors for linearity, reproduction, locality, invariance, kernel values.",
   "note": STD_NOTE + " Gaussian weights and 2-D Euclidean norms enter the executable model as checked oracle values; local systems with "
           "condition number > 1e8 (scaled design) are skipped and counted; the local solution is verified as a certificate."},
+ {"id": "C07",
+  "text": "Theorems (congruence laws of the model, thin by construction): for any pointwise predictor — P-splines with a fitted state that "
+          "CONTAINS the fit domain, local polynomials with the data — the value at a location is the same at any position of any query list "
+          "(sub-lists, permutations, concatenations); P-spline prediction is such a predictor; predicting at the fitting grid equals the "
+          "fitted values B beta (transpose lemma); rebuilding the basis on the query range (repaired defect F6) is refuted by a computed witness. "
+          "Tie (where the content is): PSplines.predict vs the pointwise model (exact Cox-de Boor basis on the fit domain, implementation's "
+          "beta) and the metamorphic relation Q' subset Q for PSplines, LocalPolynomial, and smooth / mean / covariance of dense and "
+          "irregular data with PS and LP, explicit and default parameters, 1-D and a 2-D sub-grid case.",
+  "note": STD_NOTE + " The theorems are congruences; the assurance that the implementation factors through the model is the correspondence run."},
  {"id": "C08",
   "text": "Theorems (all grids that are non-decreasing lists of reals, all integrands/datasets of matching length): trapezoid integration equals "
           "the dot product with its own weights, weights >= 0, additive and homogeneous, exact on affine pieces and additive over adjacent "
